@@ -12,6 +12,8 @@ LEDGER_DRIVERS = [{"name": "ledger", "args": {"quick": [60, 120], "thorough": [3
 LEDGER_MODELS = [
     {"name": "ledger", "module": "MC_Ledger.tla", "cfg": {"quick": "MC_LedgerQuick.cfg", "thorough": "MC_LedgerThorough.cfg"},
      "setup": "setups/ledgermodel.json", "init_from_setup": True, "timeout": {"quick": 900, "thorough": 7200}},
+    {"name": "ledgerfee", "module": "MC_Ledger.tla", "cfg": {"quick": "MC_LedgerFeeQuick.cfg", "thorough": "MC_LedgerFeeThorough.cfg"},
+     "setup": "setups/ledgerfee.json", "init_from_setup": True, "timeout": {"quick": 900, "thorough": 7200}},
 ]
 
 
